@@ -4,6 +4,7 @@ CgHist (history machine LoadFrame / ShiftParent / TranslateAll, Apply after each
 TraceCg (opposite direction).  Driver: harness/drivers/cgmap.cc (CGEngine::LoadMoleculeType /
 CreateCGTopology, TopologyMap::Apply)."""
 import json
+import math
 import os
 import random
 import vlib
@@ -64,6 +65,13 @@ def _frame_cmd(cols, mols, vel, frc, fl):
 def _parse_frame(lines):
     """-> ('exc', text) or ('ok', {type, box, beads: [ {mass,hp,pos,hv,vel,hf,f} ]})"""
     out = {"beads": []}
+    try:
+        return _parse_frame_lines(lines, out)
+    except (IndexError, ValueError) as ex:       # unreadable answer of the real code: judged, not raised
+        return "exc", "exc unreadable frame output (%s): %s" % (ex, [ln for ln in lines if ln.startswith(("cg", "bead"))][:2])
+
+
+def _parse_frame_lines(lines, out):
     for ln in lines:
         if ln.startswith("exc"):
             return "exc", ln
@@ -73,6 +81,8 @@ def _parse_frame(lines):
             out["box"] = [float(t) for t in p[4:13]]
         elif ln.startswith("bead "):
             p = ln.split()
+            if len(p) < 22:
+                raise ValueError("short bead line")
             out["beads"].append({"name": p[2], "mol": int(p[4]), "mass": float(p[6]),
                                  "hp": p[8] == "1", "pos": [float(t) for t in p[9:12]],
                                  "hv": p[13] == "1", "vel": [float(t) for t in p[14:17]],
@@ -85,6 +95,11 @@ def _parse_frame(lines):
     return "ok", out
 
 
+def _nonfinite(vec):
+    """a value of the real code that is NaN / inf where the specification expects a number"""
+    return any(not math.isfinite(x) for x in vec)
+
+
 def _vclose(a, b, tol=1e-9):
     return all(abs(x - y) <= tol * max(1.0, abs(x), abs(y)) for x, y in zip(a, b))
 
@@ -95,6 +110,7 @@ class _Checker:
         self.exe = exe
         self.xml = {}
         self.exec_pool = []
+        self.app_pool = []
         self.sticky = {}
         self.prev = None
         self.ell_short = False
@@ -227,7 +243,9 @@ class _Checker:
             if b["mol"] != mol or b["name"] != "B%d" % (k + 1):
                 ctx.violation("Apply:bead-order", "%s: found %s of molecule %d" % (tag, b["name"], b["mol"]), rep)
                 continue
-            if not vlib.close(b["mass"], float(e["mass"]), 1e-12, 0):
+            if not math.isfinite(b["mass"]):
+                ctx.violation("mass:%s:nan" % sym, "%s: mass %r is not a number" % (tag, b["mass"]), rep)
+            elif not vlib.close(b["mass"], float(e["mass"]), 1e-12, 0):
                 ctx.violation("mass:%s" % sym, "%s: mass %r, expected the sum of the current parent masses %d (atom masses %s)" %
                               (tag, b["mass"], e["mass"], st.get("mass", "")), rep)
             # flags: a value the parents carry in this frame must be there and right; when the parents do
@@ -243,17 +261,21 @@ class _Checker:
                 return False
             if flag("pos", b["hp"], e["hasPos"]):
                 cands = [[x / (e["W"] * U) for x in c] for c in e["cands"]]
-                if not any(_vclose(b["pos"], c) for c in cands):
+                if _nonfinite(b["pos"]):
+                    ctx.violation("pos:%s:nan" % sym, "%s: position %s is not finite, expected %s; atoms %s" %
+                                  (tag, b["pos"], cands, st.get("pos" if mol == 0 else "pos2", "")), rep)
+                elif not any(_vclose(b["pos"], c) for c in cands):
                     ctx.violation("pos:%s:%s" % (sym, typ), "%s: position %s (nm), expected %s; atoms %s" %
                                   (tag, b["pos"], cands, st.get("pos" if mol == 0 else "pos2", "")), rep)
             if flag("vel", b["hv"], e["hasVel"]):
                 v = [x / e["W"] for x in e["velnum"]]
                 if not _vclose(b["vel"], v):
-                    ctx.violation("vel:%s" % sym, "%s: velocity %s expected %s" % (tag, b["vel"], v), rep)
+                    ctx.violation("vel:%s%s" % (sym, ":nan" if _nonfinite(b["vel"]) else ""),
+                                  "%s: velocity %s expected %s" % (tag, b["vel"], v), rep)
             if flag("force", b["hf"], e["hasF"]):
                 f = [x / e["fden"] for x in e["fnum"]]
                 if not _vclose(b["f"], f):
-                    ctx.violation("force:%s:%s" % (sym, "d" if bd["d"] else "no-d"),
+                    ctx.violation("force:%s:%s%s" % (sym, "d" if bd["d"] else "no-d", ":nan" if _nonfinite(b["f"]) else ""),
                                   "%s: force %s expected %s" % (tag, b["f"], f), rep)
             for what, got in (("pos", b["hp"]), ("vel", b["hv"]), ("force", b["hf"])):
                 if got:
@@ -278,6 +300,9 @@ class _Checker:
         cross = lambda a, c: [a[1] * c[2] - a[2] * c[1], a[2] * c[0] - a[0] * c[2], a[0] * c[1] - a[1] * c[0]]
         norm = lambda a: dot(a, a) ** 0.5
         what = "%s: u=%s v=%s w=%s" % (tag, Uv, Vv, Wv)
+        if _nonfinite(Uv + Vv + Wv):
+            ctx.violation("orient:ellipsoid:nan", what, rep)
+            return
         if any(abs(norm(x) - 1) > 1e-9 for x in (Uv, Vv, Wv)):
             ctx.violation("orient:ellipsoid:not-unit", what, rep)
             return
@@ -367,6 +392,9 @@ class _Checker:
                                   (which, mapline, [m["type"] for m in r["mols"]]), rep)
                     continue
                 tok = mapline.split()
+                if len(tok) < 4 or not (tok[1].isdigit() and tok[3].isdigit()):
+                    ctx.violation("mixed:CreateCGTopology:exception", "%s: unreadable answer %r" % (which, mapline), rep)
+                    continue
                 if int(tok[1]) != len(exp) or int(tok[3]) != cgmol:
                     ctx.violation("mixed:CreateCGTopology:size", "%s: %s beads in %s CG molecules, expected %d in %d "
                                   "(molecule types %s, %s)" % (which, tok[1], tok[3], len(exp), cgmol,
@@ -383,14 +411,18 @@ class _Checker:
         """remember histories that a .gro trajectory can express (positions everywhere, velocities for all
         atoms or none, no rejected or half-height frame)"""
         for r in hists:
-            if len(self.exec_pool) >= limit:
+            if len(self.exec_pool) >= limit and len(self.app_pool) >= 600:
                 return
             if r["initerr"] or not r["h"] or any(bd["sym"] == 3 and len(bd["par"]) < 3 for bd in r["md"]["beads"]):
                 continue
             fl = r["h"][0]["fl"]
             if not fl["hp"] or fl["hv"] not in ("all", "none") or any(st["fl"] != fl for st in r["h"]):
                 continue
-            if any(st["err"] != "no" for st in r["h"]) or not r["h"]:
+            if any(st["err"] != "no" for st in r["h"]):
+                continue
+            if len(self.app_pool) < 600:
+                self.app_pool.append(r)      # frames for the threaded application (exec_app)
+            if len(self.exec_pool) >= limit:
                 continue
             if len(self.exec_pool) % 2 == 0 and not any(st["op"] == "shift" for st in r["h"]):
                 continue                       # every other one must contain an image shift
@@ -466,7 +498,13 @@ class _Checker:
                     ctx.violation("csg_map:box", "frame %d: box line %s expected %s" % (j, boxl, expbox), rep)
                 exp = list(st["out"]) + list(st["out2"])
                 for k, (ln, e) in enumerate(zip(atoms, exp)):
-                    xyz = [float(ln[20 + 8 * c:28 + 8 * c]) for c in range(3)]
+                    try:
+                        xyz = [float(ln[20 + 8 * c:28 + 8 * c]) for c in range(3)]
+                        if withvel and len(ln) >= 68:
+                            [float(ln[44 + 8 * c:52 + 8 * c]) for c in range(3)]
+                    except ValueError:
+                        ctx.violation("csg_map:output-unreadable", "frame %d CG bead %d: line %r" % (j, k, ln), rep)
+                        continue
                     cands = [[x / (e["W"] * U) for x in cnd] for cnd in e["cands"]]
                     if not any(all(abs(x - y) <= 6e-4 for x, y in zip(xyz, cnd)) for cnd in cands):
                         ctx.violation("csg_map:pos", "frame %d (%s) CG bead %d: %s expected %s (box %s, atoms %s / %s)"
@@ -482,6 +520,150 @@ class _Checker:
                                               % (j, k, v, ev), rep)
             shutil.rmtree(d, ignore_errors=True)
         self.stats["csg_map_runs"] = len(self.exec_pool)
+
+    # ---- executable level: a threaded CsgApplication with mapping (--nt 1, 2, 3) ------------------------------
+    def exec_app(self, bindir):
+        """every frame, whichever worker evaluates it, is mapped from ITS OWN atoms: the real
+        CsgApplication (DoMapping, DoThreaded) runs on a trajectory whose frames differ; every worker dumps
+        the atomistic frame it was handed and the CG configuration it evaluates"""
+        import shutil
+        import subprocess
+        ctx = self.ctx
+        exe = os.path.join(bindir, "drv_cgapp")
+        groups = {}
+        for r in self.app_pool:
+            key = json.dumps([r["md"], r["h"][0]["fl"], r["h"][0]["mass"]], sort_keys=True)
+            if any(st["mass"] != r["h"][0]["mass"] for st in r["h"]):
+                continue          # a .gro trajectory cannot change masses
+            groups.setdefault(key, []).append(r)
+        nrun = 0
+        for gi, (key, rs) in enumerate(sorted(groups.items())):
+            steps, seen = [], set()
+            for r in rs:
+                for st in r["h"]:
+                    ident = json.dumps([st["pos"], st["pos2"]])
+                    if ident not in seen:          # distinct frames only: a dumped frame is identified by its atoms
+                        seen.add(ident)
+                        steps.append(st)
+            steps = steps[:9]
+            if len(steps) < 4:
+                continue
+            md, fl = rs[0]["md"], rs[0]["h"][0]["fl"]
+            if md["mass"] != rs[0]["h"][0]["mass"]:
+                continue          # the xml topology built on a .gro file carries unit masses anyway; keep it simple
+            withvel = fl["hv"] == "all"
+            d = vlib.scratch_file("c01-app-%d" % gi)
+            os.makedirs(d, exist_ok=True)
+            self._write_exec(d, md, withvel, steps)
+            byatoms = {}
+            for j, st in enumerate(steps):
+                byatoms[tuple(tuple(p) for p in st["pos"] + st["pos2"])] = j
+            for nt in (1, 2, 3):
+                nrun += 1
+                ctx.traces += 1
+                self.stats["app_runs"] = self.stats.get("app_runs", 0) + 1
+                rep = {"app": {"md": md, "fl": fl, "nt": nt, "frames": [[st["box"], st["pos"], st["pos2"]] for st in steps]}}
+                try:
+                    p = subprocess.run([exe, "--top", "top.xml", "--trj", "traj.gro", "--cg", "map.xml", "--nt", str(nt)],
+                                       cwd=d, stdout=subprocess.PIPE, stderr=subprocess.STDOUT, text=True, timeout=120)
+                except subprocess.TimeoutExpired:
+                    ctx.violation("csgapp:timeout", "threaded application with --nt %d did not finish" % nt, rep)
+                    continue
+                if p.returncode != 0:
+                    ctx.violation("csgapp:failed", "--nt %d: exit %s: %s" % (nt, p.returncode, p.stdout[-500:]), rep)
+                    continue
+                frames, cur = [], None
+                for ln in p.stdout.splitlines():
+                    if not ln.startswith("DUMP "):
+                        continue
+                    t = ln.split()
+                    if t[1] == "frame":
+                        cur = {"worker": t[3], "ref": [], "cg": [], "cgbox": None}
+                    elif cur is None:
+                        continue
+                    elif t[1] == "ref":
+                        cur["ref"].append(t[2:5])
+                    elif t[1] == "cgbox":
+                        cur["cgbox"] = t[2:11]
+                    elif t[1] == "cg":
+                        cur["cg"].append(t)
+                    elif t[1] == "endframe":
+                        frames.append(cur)
+                        cur = None
+                if len(frames) != len(steps):
+                    ctx.violation("csgapp:frame-count", "--nt %d: %d frames evaluated, the trajectory has %d" %
+                                  (nt, len(frames), len(steps)), rep)
+                tag_nt = "nt1" if nt == 1 else "ntN"
+                for fr in frames:
+                    try:
+                        atoms = tuple(tuple(int(round(float(x) * U)) for x in a) for a in fr["ref"])
+                    except (ValueError, OverflowError):
+                        atoms = None
+                    j = byatoms.get(atoms)
+                    if j is None:
+                        ctx.violation("csgapp:unknown-frame", "--nt %d worker %s evaluated a frame that is not in the "
+                                      "trajectory: atoms %s" % (nt, fr["worker"], fr["ref"]), rep)
+                        continue
+                    st = steps[j]
+                    self.stats["app_frames_worker" + ("0" if fr["worker"] == "0" else "N")] = \
+                        self.stats.get("app_frames_worker" + ("0" if fr["worker"] == "0" else "N"), 0) + 1
+                    exp = list(st["out"]) + list(st["out2"])
+                    where = "--nt %d, worker %s, trajectory frame %d (box %s)" % (nt, fr["worker"], j, st["box"])
+                    try:
+                        cgbox = [float(x) for x in fr["cgbox"]]
+                        beads = [{"mass": float(t[4]), "hp": t[6] == "1", "pos": [float(x) for x in t[7:10]],
+                                  "hv": t[11] == "1", "vel": [float(x) for x in t[12:15]]} for t in fr["cg"]]
+                        if any(len(b["pos"]) != 3 or len(b["vel"]) != 3 for b in beads):
+                            raise ValueError("short line")
+                    except (ValueError, IndexError, TypeError):
+                        ctx.violation("csgapp:output-unreadable", "%s: %s" % (where, fr["cg"][:2]), rep)
+                        continue
+                    if cgbox != [st["box"][c][i] / U for i in range(3) for c in range(3)]:
+                        ctx.violation("csgapp:cgbox:%s" % tag_nt, "%s: CG box %s" % (where, cgbox), rep)
+                    if len(beads) != len(exp):
+                        ctx.violation("csgapp:bead-count", "%s: %d CG beads, expected %d" % (where, len(beads), len(exp)), rep)
+                        continue
+                    for k, (b, e) in enumerate(zip(beads, exp)):
+                        cands = [[x / (e["W"] * U) for x in cnd] for cnd in e["cands"]]
+                        if not b["hp"] or not any(_vclose(b["pos"], cnd) for cnd in cands):
+                            ctx.violation("csgapp:pos:%s" % tag_nt, "%s: CG bead %d at %s, but the map of the atoms of THIS "
+                                          "frame is %s (atoms %s / %s)" % (where, k, b["pos"], cands, st["pos"], st["pos2"]), rep)
+                        if withvel:
+                            ev = [x / e["W"] for x in e["velnum"]]
+                            if not b["hv"] or not _vclose(b["vel"], ev):
+                                ctx.violation("csgapp:vel:%s" % tag_nt, "%s: CG bead %d velocity %s expected %s" %
+                                              (where, k, b["vel"], ev), rep)
+            shutil.rmtree(d, ignore_errors=True)
+            if nrun >= (9 if self.ctx.quick else 45):
+                break
+
+    def _write_exec(self, d, md, withvel, steps):
+        n = md["n"]
+
+        def gro_frame(st):
+            lines = ["frame", "%5d" % (2 * n)]
+            k = 0
+            for mol, pos in enumerate((st["pos"], st["pos2"])):
+                for i, p in enumerate(pos):
+                    k += 1
+                    ln = "%5d%-5s%5s%5d%8.3f%8.3f%8.3f" % (mol + 1, "R", "A%d" % (i + 1), k, p[0] / U, p[1] / U, p[2] / U)
+                    if withvel:
+                        ln += "%8.4f%8.4f%8.4f" % tuple(float(x) for x in st["vel"][i])
+                    lines.append(ln)
+            a, b, c = st["box"]
+            lines.append(" ".join("%.5f" % (v / U) for v in (a[0], b[1], c[2], a[1], a[2], b[0], b[2], c[0], c[1])))
+            return "\n".join(lines) + "\n"
+
+        with open(os.path.join(d, "conf.gro"), "w") as f:
+            f.write(gro_frame(steps[0]))
+        with open(os.path.join(d, "traj.gro"), "w") as f:
+            for st in steps:
+                f.write(gro_frame(st))
+        with open(os.path.join(d, "top.xml"), "w") as f:
+            f.write('<topology base="conf.gro"><molecules><define name="M" first="1" nbeads="%d" nmols="2"/>'
+                    '</molecules></topology>\n' % n)
+        with open(os.path.join(d, "map.xml"), "w") as f:
+            f.write(_xml(md, "1:R:"))
 
     # ---- opposite direction: random frames of the real code, judged by TLC ------------------------------
     def random_frames(self, nscen, nframes):
@@ -563,6 +745,11 @@ class _Checker:
                 else:
                     rec["threw"] = False
                     obs, bad = [], False
+                    if len(o["beads"]) != len(md["beads"]):
+                        ctx.violation("Apply:bead-count", "%d CG beads, expected %d: %s" %
+                                      (len(o["beads"]), len(md["beads"]), rec), {"random": rec})
+                        continue
+                    nan = None
                     for k, b in enumerate(o["beads"]):
                         bd = md["beads"][k]
                         W = sum(bd["w"])
@@ -576,6 +763,10 @@ class _Checker:
                         ob = {"hp": b["hp"], "hv": b["hv"], "hf": b["hf"], "W": W, "fden": fden}
                         for name, vec, den in (("pos", b["pos"], W * U), ("vel", b["vel"], W), ("f", b["f"], fden)):
                             ints = []
+                            if _nonfinite(vec):       # NaN / inf is an observation (a wrong value), not an error
+                                nan = nan or ("%s:%s:nan" % ({"f": "force"}.get(name, name),
+                                                             "sphere" if bd["sym"] == 1 else "ellipsoid"), b)
+                                vec = [0.0, 0.0, 0.0]
                             for x in vec:
                                 y = x * den
                                 if abs(y - round(y)) > 1e-7 * max(1.0, abs(y)):
@@ -583,12 +774,19 @@ class _Checker:
                                 ints.append(int(round(y)))
                             ob[name] = ints
                         m = b["mass"]
+                        if not math.isfinite(m):
+                            nan = nan or ("mass:%s:nan" % ("sphere" if bd["sym"] == 1 else "ellipsoid"), b)
+                            m = 0.0
                         if abs(m - round(m)) > 1e-9:
                             bad = True
                         ob["mass"] = int(round(m))
                         ob["cgtyp"] = o["type"]
                         ob["boxok"] = o["box"] == [cols[c][i] / U for i in range(3) for c in range(3)]
                         obs.append(ob)
+                    if nan:
+                        ctx.violation(nan[0], "CG bead value is not finite: %s for the random frame %s" % (nan[1], rec),
+                                      {"random": rec})
+                        continue
                     if bad:
                         ctx.violation("Apply:off-lattice", "CG bead values are not on the expected rational lattice: "
                                       "%s for %s" % (o["beads"], rec), {"random": rec})
@@ -621,7 +819,7 @@ class _Checker:
 
 
 def run(ctx):
-    bindir = vlib.ensure_build(["drv_cgmap", "csg_map"])
+    bindir = vlib.ensure_build(["drv_cgmap", "csg_map", "drv_cgapp"])
     chk = _Checker(ctx, bindir + "/drv_cgmap")
     quick = ctx.quick
     ctx.rule = ("one trace = one call history (2 molecules, map created once, then Depth frames each followed by "
@@ -704,6 +902,10 @@ def run(ctx):
 
         # ---- 4. executable level: csg_map gro -> gro -----------------------------------------------------------------
         chk.exec_csg_map(bindir)
+        # ---- 4b. executable level: threaded CsgApplication with mapping, --nt 1, 2, 3 -----------------------------
+        chk.exec_app(bindir)
+        if not (st.get("app_frames_worker0") and st.get("app_frames_workerN")):
+            raise vlib.InfraError("vacuous threaded-application layer: %s" % {k: v for k, v in st.items() if k.startswith("app")})
 
         # ---- 5. opposite direction ----------------------------------------------------------------------------------
         if quick:
